@@ -12,7 +12,7 @@ func zzPanicOK(msg string) bool {
 }
 
 //verif:harness C20 session_api_call_orders unwind=4000 instrs=600000000 paths=200000 wall=1200
-//verif:stub (*math/rand.Rand).Shuffle zzStubShuffle
+//verif:stub (*math/rand.Rand).Shuffle zzStubShuffleIdentity
 //verif:expect end injected-ticket injected-psk
 //verif:doc Bounded history exploration of the public session API on a UConn: every sequence of 0..3 (quick) / 0..4 (thorough) calls drawn from {SetSessionCache, BuildHandshakeStateWithoutSession, SetSessionTicketExtension (initialized, symbolic 3-byte ticket), SetPskExtension (FakePreSharedKeyExtension with a symbolic identity and binder), BuildHandshakeState} followed by BuildHandshakeState, for a parrot with a session-ticket extension, one with a pre_shared_key extension and one with neither: no call ever panics with a runtime error (only errors or documented "tls:" assertion panics); whenever a setter succeeded before the hello was built and the final build succeeds, the wire hello passes the strict grammar and carries the injected ticket / identities and binders byte for byte.
 func zzC20SessionAPICallOrders() {
@@ -173,7 +173,7 @@ func zzPskEditAfterBuild() {
 }
 
 //verif:harness C20 psk_binder_covers_final_hello unwind=4000 instrs=600000000 paths=40000 wall=900
-//verif:stub (*math/rand.Rand).Shuffle zzStubShuffle
+//verif:stub (*math/rand.Rand).Shuffle zzStubShuffleIdentity
 //verif:stub (crypto.Hash).New zzStubHashNew
 //verif:stub (*utls.cipherSuiteTLS13).finishedHash zzStubFinishedHash
 //verif:expect end
